@@ -94,8 +94,17 @@ def templates(method, path, mc, grp):
                  ((node_src, node_grp), {"name": path}),
                  ((path, node_grp), {})],
     }
+    # the path arguments by KEYWORD (parameter names of the h5py / IH5 signatures; the same call with a user path works)
+    kw = {
+        "create_group": [((), {"name": path})], "require_group": [((), {"name": path})],
+        "create_dataset": [((), {"name": path, "data": 5}), ((), {"path": path, "data": 5})],
+        "require_dataset": [((), {"name": path, "shape": (1,), "dtype": "i8"})],
+        "get": [((), {"name": path})],
+        "move": [((), {"source": path, "dest": "zz_dst"}), (("top",), {"dest": path})],
+        "copy": [((), {"source": path, "dest": "zz_dst"}), (("top",), {"dest": path}), ((node_src,), {"dest": path})],
+    }
     if method in t:
-        return t[method]
+        return t[method] + kw.get(method, [])
     return [((path,), {}), ((path, 5), {})]
 
 
